@@ -3,6 +3,7 @@ package lspc
 import (
 	"context"
 	"encoding/json"
+	"errors"
 	"fmt"
 	"net/url"
 	"sort"
@@ -11,6 +12,7 @@ import (
 
 	"github.com/anishathalye/porcupine"
 	"github.com/inspirer/textmapper/compiler"
+	"github.com/inspirer/textmapper/parsers/tm"
 	"github.com/inspirer/textmapper/status"
 )
 
@@ -38,6 +40,7 @@ type ExpDiag struct {
 	Msg      string
 	Off, End int
 	NoOrigin bool
+	Token    bool // NoOrigin, but Off/End are the token a syntax error was reported at
 }
 
 // FilenameOf maps a file: URI to the path the server uses.
@@ -54,6 +57,11 @@ func FilenameOf(uri string) string {
 func ExpectedDiagnostics(filename, text string) []ExpDiag {
 	_, err := compiler.Compile(context.Background(), filename, text, compiler.Params{CheckOnly: true, Verbose: true})
 	var ret []ExpDiag
+	var se tm.SyntaxError
+	if errors.As(err, &se) && se.Offset >= 0 && se.Offset <= se.Endoffset && se.Endoffset <= len(text) {
+		// no status origin, but the parser names the offending token
+		return []ExpDiag{{Msg: se.Error(), Off: se.Offset, End: se.Endoffset, NoOrigin: true, Token: true}}
+	}
 	for _, e := range status.FromError(err) {
 		d := ExpDiag{Msg: e.Msg, Off: e.Origin.Offset, End: e.Origin.EndOffset}
 		if e.Origin.Line == 0 && e.Origin.Filename == "" {
@@ -148,6 +156,9 @@ func compareDiags(d *Doc, exp []ExpDiag, got []gotDiag) (sameContent bool, verdi
 	match("ok", func(e ExpDiag, g gotDiag) bool {
 		return !e.NoOrigin && (g.Range == diagRange(d, e, U16, true) || g.Range == diagRange(d, e, U16, false))
 	})
+	match("ok-syntax-error-at-token", func(e ExpDiag, g gotDiag) bool {
+		return e.Token && (g.Range == diagRange(d, e, U16, true) || g.Range == diagRange(d, e, U16, false))
+	})
 	match("ok-no-origin", func(e ExpDiag, g gotDiag) bool { return e.NoOrigin && inDoc(g) })
 	match("bytes", func(e ExpDiag, g gotDiag) bool {
 		return !e.NoOrigin && (g.Range == diagRange(d, e, Bytes, true) || g.Range == diagRange(d, e, Bytes, false))
@@ -166,7 +177,7 @@ func compareDiags(d *Doc, exp []ExpDiag, got []gotDiag) (sameContent bool, verdi
 				verdict[gi] = "other-outside"
 			}
 		}
-		if verdict[gi] != "ok" && verdict[gi] != "ok-no-origin" {
+		if !strings.HasPrefix(verdict[gi], "ok") {
 			var want []string
 			for _, e := range exp {
 				if e.Msg == g.Message {
